@@ -66,6 +66,7 @@ def router_level(chk):
     from . import c07
     res, s, pd = c07.explore(chk)
     chk.absorb(s, "rcache", only={"cache-content", "cache-fill", "panic"})
+    c07.recorded(chk, 40 if chk.tier == "thorough" else 8, {"cache-content", "cache-fill", "panic"})
     r = core.run_tlc("MC_RouterCache", cfg_text=c07.ccfg(["overlap"], ["FF"], [1, 2], emit=False, invs=[],
                                                      props=["MCFilledAfterDynamic"], D_CacheKeyFirstSegment=True),
                      extra_files=[pd], timeout=600)
